@@ -215,6 +215,17 @@ async fn run_case<TC: ModelCfg>(c: &Case<'_, TC>, queries: &[Bits], rep: &Report
                     t.label = qn;
                     t.sibling_proofs.truncate(k);
                     cands.push((format!("label_replaced+path_truncated@{k}"), t));
+                    // the same with the hash of the real node at that level (root value for k = 0): the
+                    // proof then recomputes the true root, only the label binds it to q
+                    let plabel = nl_bits(&p.sibling_proofs[k].label);
+                    let pval = if plabel.len() == 0 { Some(c.tree.root_value) } else { c.tree.nodes().into_iter().find(|n| n.label == plabel).map(|n| n.value) };
+                    if let Some(pv) = pval {
+                        let mut t2 = p.clone();
+                        t2.label = qn;
+                        t2.sibling_proofs.truncate(k);
+                        t2.hash_val = AzksValue(pv);
+                        cands.push((format!("label_replaced+path_truncated_to_real_node{}@{k}", if k == 0 { "_root" } else { "" }), t2));
+                    }
                 }
                 for (name, cand) in cands {
                     rep.eval(1);
